@@ -151,7 +151,7 @@ impl Prop for C18 {
         vec!["three wire formats stand for 'serde': serde_json (float_roundtrip), serde_cbor, and borsh (feature build); a format-specific attribute for another format would not be seen".into()]
     }
     fn cases(&self, tier: Tier) -> u64 {
-        tier.pick(200_000, 4_000_000)
+        tier.pick(200_000, 2_000_000)
     }
     fn strategy(&self, _tier: Tier) -> BoxedStrategy<Case> {
         let finite = prop_oneof![3 => gen::from_table(HARD), 3 => gen::any_finite(), 2 => gen::moderate(30), 1 => any::<u64>().prop_map(|b| { let f = f64::from_bits(b); if f.is_finite() { f } else { 1.5 } })];
